@@ -95,9 +95,12 @@ def wide_ops(ctx: Ctx, table: list) -> list[dict]:
     by_method = {}
     for code, meth in sorted(c07.de_bank_methods().items()):
         by_method.setdefault(meth, code)
+    import c14
+    chosen = c14.path_class_accounts(ctx, rng, 6 if ctx.quick else 12, "c05")
     for meth, code in sorted(by_method.items()):
-        for _ in range(2 if ctx.quick else 10):
-            b = code + "".join(rng.choice("0123456789") for _ in range(10))
+        accts = ["".join(rng.choice("0123456789") for _ in range(10)) for _ in range(2 if ctx.quick else 10)]
+        for a in accts + chosen.get(meth, []):          # random accounts and one per path class of the method
+            b = code + a
             iban("DE" + gen.check_digits("DE", b) + b, vb=True, entries=("iban.new", "iban.validate"))
     for code in ("00000000", "99999999"):
         b = code + "0532013000"
@@ -156,6 +159,14 @@ def run(ctx: Ctx) -> dict:
     events = calls.execute(ctx, ops, "wide")
     mism = calls.validate(ctx, "TraceCalls", events, env, "wide", per_shard=15000)
     calls.report(ctx, mism, CLAUSES, keyfn)
+    # "InvalidBBANChecksum names a defect really present": every event with national validation is also
+    # judged by the national verdict operators (the published algorithms of National / Bundesbank)
+    import c06
+    nenv = c06.algos_env(ctx, ctx.frozen(banks=True))
+    nat = [e for e in events if e.get("vb") and e["op"] in ("iban.new", "iban.validate")]
+    nmism = calls.validate(ctx, "TraceNational", nat, nenv, "widenat", per_shard=15000)
+    calls.report(ctx, [m for m in nmism if m[1] in ("rejected-but-nationally-valid", "non-library-exception")],
+                 None, keyfn)
     n_exc = sum(1 for e in events if e["out"]["k"] == "exc")
     classes = {}
     for e in events:
